@@ -345,6 +345,9 @@ class LibMixin:
         self.st.dval = z3.Store(self.st.dval, r, self.ctx.fresh("pmap_val", z3.ArraySort(Val, Val)))
         self.st.dlen = z3.Store(self.st.dlen, r, self.ctx.fresh("pmap_len", I))
         self.ctx.assume(self.dlen(r) >= 0)
+        kk = z3.Const("k!pmap", Val)
+        # protobuf map<string,string>: every key and every value is text (trusted)
+        self.ctx.assume(z3.ForAll([kk], z3.Implies(self.dhas(r, kk), z3.And(Val.is_VStr(kk), Val.is_VStr(self.dget(r, kk))))))
         self.st.ghost.setdefault("strdicts", []).append(d)
         return d
 
@@ -529,7 +532,27 @@ class LibMixin:
 
     def b_list_copy(self, args, kwargs, node, anchor):
         r = Val.r(args[0])
-        return self.st.new_list_arr(self.lel(r), self.llen(r), "list")
+        new = self.st.new_list_arr(self.lel(r), self.llen(r), "list")
+        es = self.st.ghost.get("elem_sorts", {}).get(str(z3.simplify(args[0])))
+        if es is not None:
+            self.st.ghost["elem_sorts"][str(new)] = es
+        return new
+
+    def b_dict_pop(self, args, kwargs, node, anchor):
+        d, k = args[0], z3.simplify(args[1])
+        r = Val.r(d)
+        had = self.dhas(r, k)
+        if self.ctx.branch(had, "pop-has-key"):
+            self.check_owned(d, node, "pop")
+            val = self.dget(r, k)
+            vs = self.st.ghost.get("dict_value_sorts", {}).get(str(z3.simplify(d)))
+            if vs is not None:
+                self.assume_shape(val, vs)
+            self.dict_del(r, k)
+            return val
+        if len(args) > 2:
+            return args[2]
+        self.raise_("KeyError", anchor)
 
     def b_list_extend(self, args, kwargs, node, anchor):
         self.list_iadd(args[0], args[1], node)
@@ -566,8 +589,16 @@ class LibMixin:
                 Val.r(val) > 0, Val.r(val) < self.st.next_id,
                 self.host_or_builtin_class(z3.Select(self.st.typeof, Val.r(val)))))))
         vs = self.st.ghost.get("dict_value_sorts", {}).get(str(z3.simplify(d)))
-        if vs is not None and self.ctx.must(self.dhas(r, k)):
-            self.assume_shape(val, vs)
+        if vs is not None:
+            if vs.kind == "obj":
+                t = self.table
+                names = list(vs.subclasses) if vs.subclasses else [vs.cls]
+                ids = [t.ids[n] if n in t.ids else self.index.find_class(n).cid for n in names]
+                self.ctx.assume(z3.Implies(self.dhas(r, k), z3.And(
+                    Val.is_VRef(val), Val.r(val) > 0, Val.r(val) < self.st.next_id,
+                    z3.Or(*[z3.Select(self.st.typeof, Val.r(val)) == i for i in ids]))))
+            elif self.ctx.must(self.dhas(r, k)):
+                self.assume_shape(val, vs)
         return z3.If(self.dhas(r, k), val, default)
 
     def b_dict_keys(self, args, kwargs, node, anchor):
@@ -656,6 +687,22 @@ class LibMixin:
         s = Strip(Val.s(args[0]))
         self.ctx.assume(z3.Length(s) <= z3.Length(Val.s(args[0])))
         return Val.VStr(s)
+
+    def b_int_to_bytes(self, args, kwargs, node, anchor):
+        """i.to_bytes(n, order): OverflowError when the value does not fit (negative, or >= 256**n)."""
+        i, n = Val.i(args[0]), Val.i(args[1])
+        nv = self.ctx.value_of(n)
+        if nv is None:
+            raise Unsupported("to_bytes with symbolic length")
+        if not self.ctx.branch(z3.And(i >= 0, i < z3.IntVal(256 ** nv)), "fits-in-bytes"):
+            self.raise_("ArithmeticError", anchor)
+        rid = self.st.alloc(self.table.id("bytes"))
+        self.st.set_field(z3.IntVal(rid), "$int", args[0])
+        self.st.writes.pop()
+        return VRef(rid)
+
+    def b_bytes_hex(self, args, kwargs, node, anchor):
+        return Val.VStr(z3.Function("HexOf", Val, S)(args[0]))
 
     def b_str_encode(self, args, kwargs, node, anchor):
         f = z3.Function("Utf8Ok", S, B)
